@@ -28,13 +28,14 @@ func TestVerifC15Api(t *testing.T) {
 		nshards = 1
 	}
 	type result struct {
-		Posts      int      `json:"posts"`
-		Deletes    int      `json:"deletes"`
-		Lines      int      `json:"delivered_lines_checked"`
-		Sanitized  int      `json:"posts_changed_by_sanitising"`
-		MirrorDiff []string `json:"mirror_mismatches"`
-		Violations []*vViol `json:"violations"`
-		Samples    []string `json:"samples"`
+		Posts       int      `json:"posts"`
+		BridgePosts int      `json:"posts_via_trusted_bridge"`
+		Deletes     int      `json:"deletes"`
+		Lines       int      `json:"delivered_lines_checked"`
+		Sanitized   int      `json:"posts_changed_by_sanitising"`
+		MirrorDiff  []string `json:"mirror_mismatches"`
+		Violations  []*vViol `json:"violations"`
+		Samples     []string `json:"samples"`
 	}
 	res := &result{}
 	sigs := map[string]*vViol{}
@@ -53,7 +54,9 @@ func TestVerifC15Api(t *testing.T) {
 		t.Fatal(err)
 	}
 	defer n.Stop()
-	n.setConfig(vCfgFast)
+	// (with a trusted bridge configured: requests that present its key are treated differently by the handler --
+	// the client address is taken from X-Forwarded-For -- and must be sanitised like all others)
+	n.setConfig(vCfgFast + "[TrustedBridges]\nbridgeauth = \"bridge1\"\n")
 	V, _ := n.createSession()
 	B, _ := n.createSession()
 	cm := uint64(10)
@@ -90,50 +93,66 @@ func TestVerifC15Api(t *testing.T) {
 		if g%nshards != shard {
 			continue
 		}
-		A, _ := n.createSession()
-		for _, l := range []string{fmt.Sprintf("NICK a%d", g), "USER a 0 * :a", "JOIN #c"} {
-			n.post(A, l, next())
-		}
-		before := len(n.logEntries())
-		var sent []string
-		for _, l := range lines[g*group : min(len(lines), (g+1)*group)] {
-			r := n.post(A, l, next())
-			res.Posts++
-			if r.Code == 200 {
-				sent = append(sent, l)
-			} else if r.Code != 404 && r.Code != 400 { // 404: the session ended by an earlier line of the group
-				rep("POST of a client line answered with an error status", fmt.Sprintf("%q: %d %s", l, r.Code, r.Body))
+		for _, viaBridge := range []bool{false, true} {
+			A, _ := n.createSession()
+			nick := fmt.Sprintf("a%d", g)
+			if viaBridge {
+				nick = fmt.Sprintf("w%d", g)
 			}
-		}
-		// (a) mirror conformance on the entries that reached the log
-		var logged []robust.Message
-		for _, e := range n.logEntries()[before:] {
-			if e.Type == robust.IRCFromClient && e.Session.Id == A.Num {
-				logged = append(logged, e)
+			for _, l := range []string{"NICK " + nick, "USER a 0 * :a", "JOIN #c"} {
+				n.post(A, l, next())
 			}
-		}
-		if len(logged) != len(sent) {
-			res.MirrorDiff = append(res.MirrorDiff, fmt.Sprintf("group %d: %d posts acknowledged but %d entries logged", g, len(sent), len(logged)))
-		} else {
-			for k := range sent {
-				want := ircserver.VerifSanitize(sent[k])
-				if want != sent[k] {
-					res.Sanitized++
+			before := len(n.logEntries())
+			var sent []string
+			for _, l := range lines[g*group : min(len(lines), (g+1)*group)] {
+				var r vResp
+				if viaBridge {
+					b, _ := json.Marshal(struct {
+						Data            string
+						ClientMessageId uint64
+					}{l, next()})
+					r = n.do("POST", "/robustirc/v1/"+A.Id+"/message", map[string]string{"X-Session-Auth": A.Auth, "X-Bridge-Auth": "bridgeauth", "X-Forwarded-For": "203.0.113.9"}, string(b))
+					res.BridgePosts++
+				} else {
+					r = n.post(A, l, next())
 				}
-				if logged[k].Data != want {
-					// the real handler and the mirror disagree: decide by the oracle which side is wrong
-					if strings.ContainsAny(logged[k].Data, "\r\n\x00") {
-						rep("posted text reaches the log with a line separator or NUL", fmt.Sprintf("POST %q was logged as %q", sent[k], logged[k].Data))
-					} else {
-						res.MirrorDiff = append(res.MirrorDiff, fmt.Sprintf("POST %q logged as %q, mirror says %q", sent[k], logged[k].Data, want))
+				res.Posts++
+				if r.Code == 200 {
+					sent = append(sent, l)
+				} else if r.Code != 404 && r.Code != 400 { // 404: the session ended by an earlier line of the group
+					rep("POST of a client line answered with an error status", fmt.Sprintf("%q: %d %s", l, r.Code, r.Body))
+				}
+			}
+			// (a) mirror conformance on the entries that reached the log
+			var logged []robust.Message
+			for _, e := range n.logEntries()[before:] {
+				if e.Type == robust.IRCFromClient && e.Session.Id == A.Num {
+					logged = append(logged, e)
+				}
+			}
+			if len(logged) != len(sent) {
+				res.MirrorDiff = append(res.MirrorDiff, fmt.Sprintf("group %d: %d posts acknowledged but %d entries logged", g, len(sent), len(logged)))
+			} else {
+				for k := range sent {
+					want := ircserver.VerifSanitize(sent[k])
+					if want != sent[k] {
+						res.Sanitized++
+					}
+					if logged[k].Data != want {
+						// the real handler and the mirror disagree: decide by the oracle which side is wrong
+						if strings.ContainsAny(logged[k].Data, "\r\n\x00") {
+							rep("posted text reaches the log with a line separator or NUL", fmt.Sprintf("POST %q was logged as %q", sent[k], logged[k].Data))
+						} else {
+							res.MirrorDiff = append(res.MirrorDiff, fmt.Sprintf("POST %q logged as %q, mirror says %q", sent[k], logged[k].Data, want))
+						}
 					}
 				}
 			}
-		}
-		// (b) what was delivered
-		checkStream("b", B, fmt.Sprintf("lines %d..%d of the alphabet", g*group, (g+1)*group))
-		if len(res.Samples) < 3 {
-			res.Samples = append(res.Samples, fmt.Sprintf("group %d: %d lines posted (e.g. %q), %d delivered lines checked so far", g, len(sent), lines[g*group], res.Lines))
+			// (b) what was delivered
+			checkStream("b", B, fmt.Sprintf("lines %d..%d of the alphabet", g*group, (g+1)*group))
+			if len(res.Samples) < 3 {
+				res.Samples = append(res.Samples, fmt.Sprintf("group %d: %d lines posted (e.g. %q), %d delivered lines checked so far", g, len(sent), lines[g*group], res.Lines))
+			}
 		}
 	}
 	// quit messages of DELETE requests
